@@ -25,7 +25,7 @@ M = [
  ("C13_no_check_in_set_values", "C13", "flodym/flodym_arrays.py", 'self.values = self._validated_values(values)', 'self.values = values', "set_values stores without validating"),
  ("C13_size_not_shape", "C13", "flodym/flodym_arrays.py", 'if values.shape != self.dims.shape:', 'if values.size != int(np.prod(self.dims.shape)):', "compare size instead of shape"),
  ("C13_no_time_first_check", "C13", "flodym/stocks.py", 'if self.dims.letters[0] != self.time_letter:', 'if False:', "stock accepts time not first"),
- ("C13_inflow_dims_unchecked", "C13", "flodym/stocks.py", 'elif self.inflow.dims.letters != self.dims.letters:', 'elif False:', "inflow array dims unchecked"),
+ ("C13_inflow_dims_unchecked", "C13", "flodym/stocks.py", 'elif not self._same_dims(self.inflow.dims):', 'elif False:', "inflow array dims unchecked"),
  ("C14_union_prepends", "C14", "flodym/dimensions.py", 'return DimensionSet(dim_list=self.dim_list + added_dims)', 'return DimensionSet(dim_list=added_dims + self.dim_list)', "union prepends"),
  ("C14_intersect_right_order", "C14", "flodym/dimensions.py", 'intersection_letters = [dim.letter for dim in self.dim_list if dim.letter in other.letters]', 'intersection_letters = [dim.letter for dim in other.dim_list if dim.letter in self.letters]', "intersection in the right set's order"),
  ("C14_copy_shallow", "C14", "flodym/dimensions.py", 'return self.model_copy(update={"dim_list": copy(self.dim_list)})', 'return self.model_copy()', "copy() shares dim_list"),
@@ -41,7 +41,7 @@ M = [
  ("C17_reset_after_first_param", "C17", "flodym/lifetime_models.py", 'def set_prms(self, mean: FlodymArray, std: FlodymArray):\n        self._reset_tables()\n        self.mean = self.cast_any_to_np_array(mean)\n        self.std = self.cast_any_to_np_array(std)', 'def set_prms(self, mean: FlodymArray, std: FlodymArray):\n        self.mean = self.cast_any_to_np_array(mean)\n        self._reset_tables()\n        self.std = self.cast_any_to_np_array(std)', "invalidate after storing the first of two parameters (harmless unless interrupted)"),
  ("C17_cohort_accumulates", "C17", "flodym/stocks.py", 'self._outflow_by_cohort = np.einsum(\n            "c...,tc...->tc...", self.inflow.values, self.lifetime_model.pdf\n        )', 'self._outflow_by_cohort = self._outflow_by_cohort * 0 + np.einsum(\n            "c...,tc...->tc...", self.inflow.values, self.lifetime_model.pdf\n        ) + (self._outflow_by_cohort > 1e300)', "cohort table accumulates on the previous one: history dependent when the previous result held NaN / inf (the check flags it, rightly)"),
  ("C17_global_bounds_cache", "C17", "flodym/lifetime_models.py", '    def compute_t_bounds(self):\n        middle =', '    def compute_t_bounds(self):\n        key = len(self.dim.items)\n        if key in _BOUNDS_CACHE:\n            self._bounds = _BOUNDS_CACHE[key]\n            return\n        self._compute_t_bounds()\n        _BOUNDS_CACHE[key] = self._bounds\n\n    def _compute_t_bounds(self):\n        middle =', "module-level cache of interval bounds keyed by the number of time items only (state leaks between objects and runs)"),
- ("C17_class_level_sf_cache", "C17", "flodym/lifetime_models.py", '        self._check_prms_set()\n        quad_eta, quad_weights = self.get_quad_points_and_weights()', '        self._check_prms_set()\n        key = (type(self).__name__, self._shape_cohort, tuple(float(np.sum(p)) for p in self.prms.values()))\n        if key in _SF_CACHE:\n            self._sf[...] = _SF_CACHE[key]\n            return\n        _SF_CACHE[key] = self._sf\n        quad_eta, quad_weights = self.get_quad_points_and_weights()', "module-level survival-table cache keyed by class, shape and the SUM of the parameters (ignores grid, inflow_at, per-label distribution)"),
+ ("C17_class_level_sf_cache", "C17", "flodym/lifetime_models.py", "        self._sf = sf\n\n    def get_quad_points_and_weights", "        key = (type(self).__name__, self._shape_cohort, tuple(float(np.sum(p)) for p in self.prms.values()))\n        self._sf = _SF_CACHE.setdefault(key, sf).copy()\n\n    def get_quad_points_and_weights", "module-level survival-table cache keyed by class, shape and the SUM of the parameters (ignores grid, inflow_at, per-label distribution): the first table computed under a key wins"),
  # ---- negative controls: property-preserving refactors, must NOT be flagged
  ("NC_C17_temp_copy", "C17", "flodym/stocks.py", 'self.outflow.values[...] = self._outflow_by_cohort.sum(axis=1)', 'tmp = self._outflow_by_cohort.sum(axis=1)\n        self.outflow.values[...] = tmp.copy()', "negative control: harmless temp copy"),
  ("NC_C14_copy_via_ctor", "C14", "flodym/dimensions.py", 'return self.model_copy(update={"dim_list": copy(self.dim_list)})', 'return DimensionSet(dim_list=list(self.dim_list))', "negative control: copy() through the constructor"),
